@@ -30,7 +30,21 @@ func runBurst(rounds, n int, seed int64, out string) {
 		ciphers := service.NewCipherList()
 		ciphers.Update(klist)
 		rc := service.NewReplayCache(10)
-		handler := service.NewStreamHandler(service.NewShadowsocksStreamAuthenticator(ciphers, &rc, nil, nil), 2*time.Second)
+		// the server's wiring layer: ssService.HandleStream creates the metrics object with ServiceMetrics.AddOpenTCPConnection
+		// and passes it to the stream handler (59 s handshake timeout; the clients half-close after 20-40 ms)
+		b := newBoard()
+		var portMu sync.Mutex
+		ports := map[int]int{}
+		connID := func(conn net.Conn) int {
+			portMu.Lock()
+			defer portMu.Unlock()
+			return ports[conn.RemoteAddr().(*net.TCPAddr).Port]
+		}
+		svc, err := service.NewShadowsocksService(service.WithCiphers(ciphers), service.WithReplayCache(&rc),
+			service.WithMetrics(&recServiceMetrics{b: b, c: connID}))
+		if err != nil {
+			hx.Fatal("NewShadowsocksService: %v", err)
+		}
 		ln, err := net.ListenTCP("tcp", &net.TCPAddr{IP: net.IPv4(127, 0, 0, 1)})
 		if err != nil {
 			hx.Fatal("listen: %v", err)
@@ -62,30 +76,47 @@ func runBurst(rounds, n int, seed int64, out string) {
 				hx.Fatal("dial: %v", err)
 			}
 			clients = append(clients, c)
+			portMu.Lock()
+			ports[c.LocalAddr().(*net.TCPAddr).Port] = i + 1
+			portMu.Unlock()
 		}
+		cfinAt := make([]int64, n+1)
 		var eofs int32
 		var cw sync.WaitGroup
-		for _, c := range clients {
+		for i, c := range clients {
 			cw.Add(1)
 			busy := time.Duration(20+rng.Intn(20)) * time.Millisecond
-			go func(c *net.TCPConn) {
+			go func(id int, c *net.TCPConn) {
 				defer cw.Done()
 				<-gate
 				time.Sleep(busy)
+				cfinAt[id] = b.ms()
 				c.CloseWrite()
 				c.SetReadDeadline(time.Now().Add(3 * time.Second))
-				if _, err := io.Copy(io.Discard, c); err == nil {
+				nr, err := io.Copy(io.Discard, c)
+				k := closeKind(err)
+				b.update(id, func(o *connObs) {
+					o.wireCR += nr
+					if k == 0 || k == -1 {
+						o.clog = append(o.clog, k)
+						o.closeAt = b.ms()
+					}
+				})
+				if err == nil {
 					atomic.AddInt32(&eofs, 1)
 				}
 				c.Close()
-			}(c)
+			}(i+1, c)
 		}
 		done := make(chan [3]int32, 1)
 		go func() {
 			service.StreamServe(accept, func(ctx context.Context, conn transport.StreamConn) {
 				atomic.AddInt32(&started, 1)
-				handler.Handle(ctx, conn, nil)
+				id := connID(conn)
+				b.update(id, func(o *connObs) { o.opened = true; o.acceptAt = b.ms() })
+				svc.HandleStream(ctx, conn)
 				atomic.AddInt32(&finished, 1)
+				b.update(id, func(o *connObs) { o.handled = true })
 			})
 			done <- [3]int32{atomic.LoadInt32(&accepted), atomic.LoadInt32(&started), atomic.LoadInt32(&finished)}
 		}()
@@ -99,6 +130,23 @@ func runBurst(rounds, n int, seed int64, out string) {
 			returned = false
 		}
 		cw.Wait()
+		// one record per connection, judged by TLC like every other connection record (opened once / closed once at the
+		// ServiceMetrics interface, probe report, silence, close not before the client's)
+		b.mu.Lock()
+		for id := 1; id <= n; id++ {
+			o := b.get(id)
+			rec := &caseRec{Ev: "Case", Beh: r, C: id, Hs: "garbage", Tk: "ok", TimeoutMs: 59000, Cfin: true, CfinAt: cfinAt[id], PreDoneAt: -1,
+				AddrDoneAt: -1, LastSendAt: -1, AcceptAt: o.acceptAt, CloseAt: o.closeAt, Csent: []tokOut{}, Tlog: []int{}, Clog: append([]int{}, o.clog...),
+				Mlog: append([]mrec{}, o.mlog...), Snaps: []snap{}, Stalls: []string{}, StallKinds: []string{}, DialAddrs: []string{}, Script: []scriptStep{},
+				Env: []string{"burst"}, Handled: o.handled, Connected: true, Tcl: "no", WCR: o.wireCR, Cancelled: true}
+			for _, m := range o.mlog {
+				if m.M == "Probe" {
+					rec.Drain = m.Drain
+				}
+			}
+			tr.Emit(toMap(rec))
+		}
+		b.mu.Unlock()
 		tr.Emit(map[string]any{"ev": "Burst", "round": r, "n": n, "serveReturned": returned, "accepted": at[0], "startedAtReturn": at[1],
 			"finishedAtReturn": at[2], "finishedLater": atomic.LoadInt32(&finished), "clientsSawEOF": eofs})
 	}
